@@ -13,6 +13,8 @@ import (
 	"sort"
 	"strings"
 	"sync"
+	"sync/atomic"
+	"time"
 
 	el "github.com/hashicorp/eventlogger"
 	"verifharness/hc"
@@ -575,6 +577,8 @@ func alphabet(small bool) []Op {
 					a = append(a, Op{K: "regpipe", Pid: p, Ety: t, IDs: ids, Pol: pol})
 				}
 			}
+			// definitions that are refused after validation (unregistered node / ill-formed shape): failed overwrites
+			a = append(a, Op{K: "regpipe", Pid: p, Ety: t, IDs: []int{2, 7}}, Op{K: "regpipe", Pid: p, Ety: t, IDs: []int{3, 2}})
 			a = append(a, Op{K: "rmpipe", Ety: t, Pid: p}, Op{K: "rpan", Ety: t, Pid: p})
 		}
 	}
@@ -781,6 +785,105 @@ func genPolicy(e *emitter, maxLen int) {
 	rec(nil)
 }
 
+// ---------- C07 search: an overwriting RegisterPipeline racing with Sends ----------
+type racePayload struct{ a, b int32 }
+type markNode struct {
+	which int
+	typ   el.NodeType
+}
+
+func (m *markNode) Process(ctx context.Context, e *el.Event) (*el.Event, error) {
+	if p, ok := e.Payload.(*racePayload); ok {
+		if m.which == 1 {
+			atomic.AddInt32(&p.a, 1)
+		} else if m.which == 2 {
+			atomic.AddInt32(&p.b, 1)
+		}
+	}
+	return e, nil
+}
+func (m *markNode) Reopen() error     { return nil }
+func (m *markNode) Type() el.NodeType { return m.typ }
+
+type raceResult struct {
+	Overwrites int      `json:"overwrites"`
+	Sends      int64    `json:"sends"`
+	Settled    int64    `json:"sends_with_no_overwrite_in_flight"`
+	Bad        []string `json:"violations"`
+}
+
+// every Send must be processed by exactly one version of the pipeline, and by the current one when no overwrite overlapped it
+func overwriteRace(dur time.Duration, senders int) raceResult {
+	b, _ := el.NewBroker()
+	must := func(err error) {
+		if err != nil {
+			panic(err)
+		}
+	}
+	must(b.RegisterNode("fa", &markNode{which: 1, typ: el.NodeTypeFilter}))
+	must(b.RegisterNode("fb", &markNode{which: 2, typ: el.NodeTypeFilter}))
+	must(b.RegisterNode("fmt", &markNode{typ: el.NodeTypeFormatter}))
+	must(b.RegisterNode("snk", &markNode{typ: el.NodeTypeSink}))
+	vers := [][]el.NodeID{{"fa", "fmt", "snk"}, {"fb", "fmt", "snk"}}
+	must(b.RegisterPipeline(el.Pipeline{PipelineID: "p", EventType: "t", NodeIDs: vers[0]}))
+	var state int64 // gen*2 + inProgress; version in force when settled = gen % 2
+	var res raceResult
+	var mu sync.Mutex
+	stop := make(chan struct{})
+	var wg sync.WaitGroup
+	for i := 0; i < senders; i++ {
+		wg.Add(1)
+		go func() {
+			defer wg.Done()
+			for {
+				select {
+				case <-stop:
+					return
+				default:
+				}
+				s0 := atomic.LoadInt64(&state)
+				p := &racePayload{}
+				_, _ = b.Send(context.Background(), "t", p)
+				s1 := atomic.LoadInt64(&state)
+				n := atomic.AddInt64(&res.Sends, 1)
+				a, bb := atomic.LoadInt32(&p.a), atomic.LoadInt32(&p.b)
+				var msg string
+				if a+bb != 1 {
+					msg = fmt.Sprintf("send %d processed by %d version(s) (old-marker visits %d, new-marker visits %d)", n, a+bb, a, bb)
+				} else if s0 == s1 && s0%2 == 0 {
+					atomic.AddInt64(&res.Settled, 1)
+					cur := (s0 / 2) % 2
+					if (cur == 0 && a != 1) || (cur == 1 && bb != 1) {
+						msg = fmt.Sprintf("send %d ran entirely after overwrite %d returned but was processed by the replaced version", n, s0/2)
+					}
+				}
+				if msg != "" {
+					mu.Lock()
+					if len(res.Bad) < 5 {
+						res.Bad = append(res.Bad, msg)
+					}
+					mu.Unlock()
+				}
+			}
+		}()
+	}
+	deadline := time.Now().Add(dur)
+	gen := int64(0)
+	for time.Now().Before(deadline) {
+		atomic.StoreInt64(&state, gen*2+1)
+		must(b.RegisterPipeline(el.Pipeline{PipelineID: "p", EventType: "t", NodeIDs: vers[(gen+1)%2]}))
+		gen++
+		atomic.StoreInt64(&state, gen*2)
+		res.Overwrites++
+		if gen%64 == 0 {
+			time.Sleep(50 * time.Microsecond)
+		}
+	}
+	close(stop)
+	wg.Wait()
+	return res
+}
+
 func runCorpus(e *emitter, path string) {
 	data, err := os.ReadFile(path)
 	if err != nil {
@@ -816,6 +919,7 @@ func main() {
 	perShard := flag.Int("per-shard", 250, "cases per file")
 	corpus := flag.String("corpus", "", "corpus file (JSON lines), run first")
 	replay := flag.String("replay", "", "replay one JSON case and print its observations")
+	raceMs := flag.Int("overwrite-race-ms", 0, "C07: race overwriting RegisterPipeline calls against senders for this long")
 	flag.Parse()
 
 	if *replay != "" {
@@ -883,6 +987,9 @@ func main() {
 			fmt.Fprintf(os.Stderr, "unknown mode %s\n", m)
 			os.Exit(2)
 		}
+	}
+	if *raceMs > 0 {
+		summary["overwrite_race"] = overwriteRace(time.Duration(*raceMs)*time.Millisecond, 6)
 	}
 	cf.Close()
 	side.Close()
